@@ -23,6 +23,11 @@
 (*   "long"     an existing file whose absolute path is longer than 255    *)
 (*              characters (every single component is short)               *)
 (*   "package"  a source file of the installed package                     *)
+(*   "odd_file" an existing file spelled with a doubled slash              *)
+(*   "odd_child" a non-existing name below an existing directory, spelled  *)
+(*              with a /./ segment and a doubled slash                     *)
+(*   "toplevel" a non-existing name directly below an existing top-level   *)
+(*              directory (/tmp/name)                                      *)
 (*   "nowhere"  no component below / exists                                *)
 (*   "none"     (shape = plain)                                            *)
 (* The sanitiser removes quotes only, turns the word into a path and asks  *)
@@ -33,11 +38,12 @@
 EXTENDS Integers, Sequences, FiniteSets, TLC
 
 Shapes == {"plain", "bare", "quoted", "trailing", "leading", "keyeq", "repr", "colon"}
-Refs == {"file", "child", "deep", "long", "package", "nowhere", "none"}
+Refs == {"file", "child", "deep", "long", "package", "odd_file", "odd_child", "toplevel", "nowhere", "none"}
+ResolvingRefs == {"file", "child", "deep", "long", "package", "odd_file", "odd_child", "toplevel"}
 Words == {w \in [shape : Shapes, ref : Refs] : (w.shape = "plain") <=> (w.ref = "none")}
 
 StartsWithPath(w) == w.shape \in {"bare", "quoted", "trailing"}
-Resolves(w) == w.ref \in {"file", "child", "deep", "long", "package"}     \* some ancestor below / exists
+Resolves(w) == w.ref \in ResolvingRefs     \* some ancestor below / exists
 
 \* outcome of sanitize_paths on one word
 Sanitized(w) ==
@@ -80,7 +86,7 @@ WriteOut == /\ pcS = "run" /\ sinks' = {[shape |-> w.shape, ref |-> w.ref, out |
             /\ pcS' = "done" /\ UNCHANGED log
 SNext == (\E s \in Sources : Emit(s)) \/ WriteOut
 SSpec == SInit /\ [][SNext]_svars
-NoLeakInSinks == \A s \in sinks : ~(s.out = "kept" /\ s.shape # "plain" /\ s.ref \in {"file", "child", "deep", "long", "package"})
+NoLeakInSinks == \A s \in sinks : ~(s.out = "kept" /\ s.shape # "plain" /\ s.ref \in ResolvingRefs)
 
 Small == Cardinality(log) <= 3
 ASSUME SafeShapesNeverLeak /\ UnsafeShapesAlwaysLeak
